@@ -72,21 +72,31 @@ def _direct(name, N, flag, inp):
     raise KeyError(name)
 
 
+_BASE = {}
+
+
+def _oracle_base(N, mp, H):
+    """flag-independent part: S_k at N, N/2, (N-1)/2 (mpmath), memoised per worker."""
+    if N not in _BASE:
+        if len(_BASE) > 64:
+            _BASE.clear()
+        Nm = mp.mpmathify(N)
+        _BASE[N] = [(H.S_single(k, Nm), H.S_single(k, Nm / 2), H.S_single(k, (Nm - 1) / 2)) for k in range(1, 6)]
+    return _BASE[N]
+
+
 def _oracle_inputs(N, flag, mp, H):
     """Lower-weight inputs from the oracle (mpmath), as python complex."""
-    eta = _eta(N, flag)
+    eta = mp.mpmathify(_eta(N, flag))
     inp = {}
-    for k in range(1, 6):
-        s = H.S_single(k, N)
-        sh = H.S_single(k, mp.mpmathify(N) / 2)
-        smh = H.S_single(k, (mp.mpmathify(N) - 1) / 2)
+    for k, (s, sh, smh) in enumerate(_oracle_base(N, mp, H), start=1):
         inp[f"S{k}"] = complex(s)
         inp[f"S{k}h"] = complex(sh)
         inp[f"S{k}mh"] = complex(smh)
         # S_{-k} from the definition: split into even/odd j; linear in eta
         ev = sh / 2 ** (k - 1) - s
         od = smh / 2 ** (k - 1) - s
-        inp[f"Sm{k}"] = complex((1 + mp.mpmathify(eta)) / 2 * ev + (1 - mp.mpmathify(eta)) / 2 * od)
+        inp[f"Sm{k}"] = complex((1 + eta) / 2 * ev + (1 - eta) / 2 * od)
     return inp
 
 
@@ -160,7 +170,10 @@ def job_complex(args):
         if do_int and flag is not None:
             # independent integral representation of S_{-k}
             for k in (1, 3, 5):
-                ref = complex(H.Sm_single(k, N, eta))
+                ref, qerr = H.Sm_single(k, N, eta, error=True)
+                ref = complex(ref)
+                if not (float(qerr) < 1e-13):
+                    continue  # the quadrature did not converge to the needed accuracy: no verdict from it
                 v = vals[(f"Sm{k}", flag, N)]
                 out.append(("single_integral", f"Sm{k}", flag, abs(v - ref), max(1.0, abs(ref)), 1e-11, dict(code=v, ref=ref)))
         # ---- one-step recurrence S(N+1; flipped parity) - S(N; parity) = term(N+1)
@@ -315,7 +328,10 @@ def job_cache_oracle(args):
 
     Nm = mp.mpmathify(N)
     li2 = lambda x: mp.polylog(2, x)
-    g3 = lambda M: mp.quad(lambda x: x ** (M - 1) * li2(x) / (1 + x), [0, mp.mpf(1) / 4, mp.mpf(3) / 4, 1])
+    def g3(M):
+        val, err = mp.quad(lambda x: x ** (M - 1) * li2(x) / (1 + x), [0, mp.mpf(1) / 4, mp.mpf(3) / 4, 1], error=True)
+        return val if float(err) < 1e-9 else None
+
     ref = {
         "S1h": H.S_single(1, Nm / 2),
         "S2h": H.S_single(2, Nm / 2),
@@ -334,6 +350,8 @@ def job_cache_oracle(args):
     ca = c.reset()
     for name, r in ref.items():
         v = complex(c.get(getattr(c, name), ca, N, flag))
+        if r is None:
+            continue  # oscillatory integral not resolved by the quadrature: no verdict
         r = complex(r)
         tol = TOL_G["g3"] if name.startswith("g3") else TOL_EXACT * 50
         out.append((name, abs(v - r), max(1.0, abs(r)), tol, dict(code=v, ref=r)))
@@ -393,9 +411,9 @@ def run(ck):
             else:
                 ck.ok()
     # ---------------- complex N
-    npts = ck.n(400, 6000)
+    npts = ck.n(240, 6000)
     pts = _rand_N(rng, npts)
-    nint = ck.n(24, 200)
+    nint = ck.n(12, 200)
     items = [(N, i < nint and abs(N.imag) <= 25) for i, N in enumerate(pts)]
     for item, st, val in jobs.pmap(job_complex, items, timeout=3000):
         if st != "ok":
@@ -414,7 +432,7 @@ def run(ck):
             else:
                 ck.ok()
     # ---------------- Mellin transforms: g-functions (defining integrals)
-    ng = ck.n(16, 120)
+    ng = ck.n(12, 120)
     gpts = [complex(1, 0), complex(2, 0), complex(1, 1)]
     while len(gpts) < ng:
         re = rng.uniform(0.7, 30)
